@@ -1,7 +1,7 @@
 (* Extract.v — extraction of the executable model to OCaml.
    Directives: only those of ExtrOcamlBasic (bool, option, unit, prod, list,
    sumbool, sumor -> native OCaml types).  positive/N/Z/nat stay Coq inductives. *)
-From PauLie Require Import Pauli Matrix Sym ClosureN LieInv Star Validator Member Collection PauliBits Parser Compiler Graph Orbit Linear Decomp Quadratic.
+From PauLie Require Import Pauli Matrix Sym ClosureN LieInv Star Validator Member Collection PauliBits Parser Compiler Graph Orbit Linear Decomp Quadratic Families.
 Require Extraction ExtrOcamlBasic.
 Extraction Language OCaml.
 Extraction "oracle.ml"
@@ -20,4 +20,5 @@ Extraction "oracle.ml"
   otoc_counts complexity_counts
   simplify ladd lscale lherm lmatmul lmatmul_alias_old ltrace ltrace_old lis_zero lis_zero_old leq denote size_of
   decompose decompose_iter decompose_diag decompose_diag_iter index dindex weight_in pauli_weights shape_ok diag_shape_ok
-  full_basis twirl.
+  full_basis twirl
+  su_family_table.
